@@ -51,8 +51,8 @@ func init() {
 			Old: "\tif statusCode == 0 {\n\t\tstatusCode = 200\n\t}", New: "\tif statusCode < 200 {\n\t\tstatusCode = 200\n\t}",
 			Expect: []string{"finish-order.status-default"}, Note: "1xx raw status codes silently replaced by 200"},
 		Mutant{ID: "C17-handler-still-runs", Prop: "C17", File: frr,
-			Old: "\t\t\t\t\treturn nil, err\n\t\t\t\t}\n\t\t\t\treturn nil, connect.NewError(connect.CodeAborted, errors.New(\"use raw response instead\"))\n\t\t\t}\n\t\t}\n\t\treturn next(ctx, req)",
-			New: "\t\t\t\t\treturn nil, err\n\t\t\t\t}\n\t\t\t}\n\t\t}\n\t\treturn next(ctx, req)",
+			Old:    "\t\t\t\t\treturn nil, err\n\t\t\t\t}\n\t\t\t\treturn nil, connect.NewError(connect.CodeAborted, errors.New(\"use raw response instead\"))\n\t\t\t}\n\t\t}\n\t\treturn next(ctx, req)",
+			New:    "\t\t\t\t\treturn nil, err\n\t\t\t\t}\n\t\t\t}\n\t\t}\n\t\treturn next(ctx, req)",
 			Expect: []string{"recorder.handler-skipped"}, Note: "handler invoked although a raw response was recorded"},
 		Mutant{ID: "C17-orig-headers-leak", Prop: "C17", File: "internal/app/referenceclient/raw_request.go",
 			Old: "\tinternal.AddHeaders(r.rawRequest.Headers, req.Header)\n", New: "\treq.Header = orig.Header.Clone()\n\tinternal.AddHeaders(r.rawRequest.Headers, req.Header)\n",
